@@ -415,6 +415,37 @@ def role_checks(out_dir: str) -> list[tuple[str, str]]:
         out.append(("roles:process", f"process_generated_files raised {type(ex).__name__}: "
             f"{short(ex, 160)}"))
         return out
+    # what the generated pages themselves declare (a cross-reference resolves against these
+    # declarations, not against the Python modules): py:currentmodule + py:data / py:function
+    declared: set[str] = set()
+    for fn in sorted(os.listdir(out_dir)):
+        with open(os.path.join(out_dir, fn), encoding="utf-8") as f:
+            text = f.read()
+        current = ""
+        for m in re.finditer(r"^\.\. py:(currentmodule|data|function|attribute):: ([\w.]+)", text,
+                re.M):
+            if m.group(1) == "currentmodule":
+                current = m.group(2)
+            else:
+                declared.add(f"{current}.{m.group(2)}")
+    refs = 0
+    for fn in sorted(os.listdir(out_dir)):
+        with open(os.path.join(out_dir, fn), encoding="utf-8") as f:
+            text = f.read()
+        dangling = []
+        current = ""
+        for m in re.finditer(r"^\.\. py:currentmodule:: ([\w.]+)|:attr:`~?([\w.]+)`", text, re.M):
+            if m.group(1):
+                current = m.group(1)
+                continue
+            refs += 1
+            t = m.group(2)
+            # as Sphinx does: the name as written, or relative to the current module
+            if t not in declared and f"{current}.{t}" not in declared:
+                dangling.append(t)
+        out.append((f"crossrefs:{fn}", "" if not dangling else
+            f"cross-reference targets not declared by any generated page: {sorted(set(dangling))[:4]}"))
+    out.append(("crossrefs:count", "" if refs > 0 else "no cross-reference found at all"))
     for fn in sorted(os.listdir(out_dir)):
         with open(os.path.join(out_dir, fn), encoding="utf-8") as f:
             text = f.read()
